@@ -38,16 +38,28 @@ theorem idealAt_eq_semF (F0 : SemFn) (Fs tl : List SemFn) (input : List Val) :
     idealAt (F0 :: (Fs ++ tl)) input Fs.length = semF Fs input := by
   rw [idealAt_take F0 Fs tl input Fs.length (Nat.le_refl _), List.take_length]
 
-theorem semF_eq_sem (stages : List Stage) (h : ∀ st ∈ stages, st.isFlow = true) (xs : List Val) :
-    semF (stages.map fun st => xfRun st {}) xs = sem stages xs := by
+/-- the semantic function of the node `mkNode` builds for a stage -/
+def stageF : Stage → SemFn
+  | .batch n => stageSem (.batch n)
+  | st => xfRun st {}
+
+theorem stageF_eq_stageSem (st : Stage) (h : Stage.covered st = true) (xs : List Val) :
+    stageF st xs = stageSem st xs := by
+  cases st <;> simp [Stage.covered] at h
+  all_goals first
+    | rfl
+    | exact xfRun_eq_stageSem _ rfl xs
+
+theorem semF_eq_sem (stages : List Stage) (h : ∀ st ∈ stages, Stage.covered st = true) (xs : List Val) :
+    semF (stages.map stageF) xs = sem stages xs := by
   induction stages generalizing xs with
   | nil => rfl
   | cons st rest ih =>
-    have h1 := xfRun_eq_stageSem st (h st (by simp)) xs
+    have h1 := stageF_eq_stageSem st (h st (by simp)) xs
     have ih' := ih (fun s hs => h s (by simp [hs]))
     simp only [List.map_cons, semF, sem, h1, ih']
 
-theorem midF_mkNode (st : Stage) (h : st.isFlow = true) : midF (mkNode st) = xfRun st {} := by
-  cases st <;> simp [Stage.isFlow] at h <;> rfl
+theorem midF_mkNode (st : Stage) (h : Stage.covered st = true) : midF (mkNode st) = stageF st := by
+  cases st <;> simp [Stage.covered] at h <;> rfl
 
 end GoaktVerif.C45
